@@ -32,6 +32,8 @@ pub struct InstanceState {
     most_recent_disposed_generation_count: i32,
     most_recent_no_writers_generation_count: i32,
     last_received_time_stamp: Time,
+    // Writers that have written the instance and have not unregistered it
+    registered_writers: Vec<[u8; 16]>,
 }
 
 impl InstanceState {
@@ -43,17 +45,39 @@ impl InstanceState {
             most_recent_disposed_generation_count: 0,
             most_recent_no_writers_generation_count: 0,
             last_received_time_stamp: Time::new(TIME_INVALID_SEC, TIME_INVALID_NSEC),
+            registered_writers: Vec::new(),
         }
     }
 
-    pub fn update_state(&mut self, change_kind: ChangeKind, now: Option<Time>) {
+    pub fn update_state(
+        &mut self,
+        change_kind: ChangeKind,
+        writer_guid: Option<[u8; 16]>,
+        now: Option<Time>,
+    ) {
+        if let Some(writer_guid) = writer_guid {
+            match change_kind {
+                ChangeKind::Alive | ChangeKind::AliveFiltered => {
+                    if !self.registered_writers.contains(&writer_guid) {
+                        self.registered_writers.push(writer_guid);
+                    }
+                }
+                ChangeKind::NotAliveUnregistered | ChangeKind::NotAliveDisposedUnregistered => {
+                    self.registered_writers.retain(|w| w != &writer_guid)
+                }
+                ChangeKind::NotAliveDisposed => (),
+            }
+        }
         match self.instance_state {
             InstanceStateKind::Alive => {
                 if change_kind == ChangeKind::NotAliveDisposed
                     || change_kind == ChangeKind::NotAliveDisposedUnregistered
                 {
                     self.instance_state = InstanceStateKind::NotAliveDisposed;
-                } else if change_kind == ChangeKind::NotAliveUnregistered {
+                } else if change_kind == ChangeKind::NotAliveUnregistered
+                    && self.registered_writers.is_empty()
+                {
+                    // The instance has no writers only when all its writers have unregistered it
                     self.instance_state = InstanceStateKind::NotAliveNoWriters;
                 }
             }
@@ -198,7 +222,7 @@ impl<T> DataReaderEntity<T> {
                 .iter_mut()
                 .find(|x| x.handle() == &cache_change.instance_handle)
                 .expect("Instance must exist");
-            instance_from_collection.update_state(cache_change.kind, None);
+            instance_from_collection.update_state(cache_change.kind, None, None);
             let sample_state = cache_change.sample_state;
             let view_state = instance.view_state;
             let instance_state = instance.instance_state;
@@ -330,10 +354,10 @@ impl<T> DataReaderEntity<T> {
                     .iter_mut()
                     .find(|x| x.handle() == &instance_handle)
                 {
-                    Some(x) => x.update_state(change_kind, Some(reception_timestamp)),
+                    Some(x) => x.update_state(change_kind, Some(writer_guid.into()), Some(reception_timestamp)),
                     None => {
                         let mut s = InstanceState::new(instance_handle);
-                        s.update_state(change_kind, Some(reception_timestamp));
+                        s.update_state(change_kind, Some(writer_guid.into()), Some(reception_timestamp));
                         self.instances.push(s);
                     }
                 }
@@ -348,7 +372,11 @@ impl<T> DataReaderEntity<T> {
                     .find(|x| x.handle() == &instance_handle)
                 {
                     Some(instance) => {
-                        instance.update_state(change_kind, Some(reception_timestamp));
+                        instance.update_state(
+                            change_kind,
+                            Some(writer_guid.into()),
+                            Some(reception_timestamp),
+                        );
                         Ok(())
                     }
                     None => Err(DdsError::Error(
@@ -545,10 +573,10 @@ impl<T> DataReaderEntity<T> {
                     .iter_mut()
                     .find(|x| x.handle() == &sample.instance_handle)
                 {
-                    Some(x) => x.update_state(sample.kind, Some(reception_timestamp)),
+                    Some(x) => x.update_state(sample.kind, Some(sample.writer_guid), Some(reception_timestamp)),
                     None => {
                         let mut s = InstanceState::new(sample.instance_handle);
-                        s.update_state(sample.kind, Some(reception_timestamp));
+                        s.update_state(sample.kind, Some(sample.writer_guid), Some(reception_timestamp));
                         self.instances.push(s);
                     }
                 }
@@ -563,7 +591,11 @@ impl<T> DataReaderEntity<T> {
                     .find(|x| x.handle() == &sample.instance_handle)
                 {
                     Some(instance) => {
-                        instance.update_state(sample.kind, Some(reception_timestamp));
+                        instance.update_state(
+                            sample.kind,
+                            Some(sample.writer_guid),
+                            Some(reception_timestamp),
+                        );
                         Ok(())
                     }
                     None => Err(DdsError::Error(
